@@ -194,7 +194,7 @@ func c09r1(c *core.Ctx) {
 		// the lookup uses the same two values in the same order
 		okIDs := false
 		core.Instrs(f, func(i ssa.Instruction) {
-			if g := core.Callee(i); g != nil && g.Name() == "getCharacteristic" && i.Block().Dominates(a.Block()) || (core.Callee(i) != nil && core.Callee(i).Name() == "getCharacteristic" && reachesAfter(i, a)) {
+			if g := core.Callee(i); g != nil && cn(g) == "getCharacteristic" && i.Block().Dominates(a.Block()) || (core.Callee(i) != nil && cn(core.Callee(i)) == "getCharacteristic" && reachesAfter(i, a)) {
 				args := core.Args(i)
 				if aid != nil && iid != nil && args[0] == aid && args[1] == iid {
 					okIDs = true
@@ -206,7 +206,7 @@ func c09r1(c *core.Ctx) {
 	}
 	encOK := false
 	core.Instrs(f, func(i ssa.Instruction) {
-		if g := core.Callee(i); g != nil && g.Name() == "WriteJSON" {
+		if g := core.Callee(i); g != nil && cn(g) == "WriteJSON" {
 			v := core.Args(i)[2]
 			for _, s := range core.Sources(v) {
 				if al, ok := s.(*ssa.Alloc); ok {
@@ -600,7 +600,7 @@ func c09r4(c *core.Ctx) {
 		recv := core.Receiver(s)
 		okLookup := core.AnySource(recv, func(v ssa.Value) bool {
 			call, ok := v.(*ssa.Call)
-			if !ok || core.Callee(call) == nil || core.Callee(call).Name() != "getCharacteristic" {
+			if !ok || core.Callee(call) == nil || cn(core.Callee(call)) != "getCharacteristic" {
 				return false
 			}
 			a := core.Args(call)
